@@ -64,11 +64,17 @@ type cbMirror struct {
 	processor *procMirror
 }
 
-func sameLayout(real, mirror reflect.Type, what string) error {
-	if real.Kind() != reflect.Struct || real.NumField() != mirror.NumField() || real.Size() != mirror.Size() {
+// extraProcFields: fields a changed tree appended to gorm's processor struct
+// behind the mirrored ones. They are pipeline state the mirror does not name,
+// so snapshots copy and restore them by reflection (deep copy of maps/slices).
+var extraProcFields []reflect.StructField
+
+func sameLayout(real, mirror reflect.Type, what string, allowTrailing bool) error {
+	if real.Kind() != reflect.Struct || real.NumField() < mirror.NumField() ||
+		(!allowTrailing && (real.NumField() != mirror.NumField() || real.Size() != mirror.Size())) {
 		return fmt.Errorf("gorm %s: layout differs from the harness mirror (fields %d vs %d)", what, real.NumField(), mirror.NumField())
 	}
-	for i := 0; i < real.NumField(); i++ {
+	for i := 0; i < mirror.NumField(); i++ {
 		a, b := real.Field(i), mirror.Field(i)
 		if a.Name != b.Name || a.Offset != b.Offset || a.Type.Kind() != b.Type.Kind() || a.Type.Size() != b.Type.Size() {
 			return fmt.Errorf("gorm %s field %d: %s %s@%d, mirror has %s %s@%d", what, i, a.Name, a.Type, a.Offset, b.Name, b.Type, b.Offset)
@@ -80,14 +86,18 @@ func sameLayout(real, mirror reflect.Type, what string) error {
 func verifyLayout() error {
 	db := openGorm()
 	pt := reflect.TypeOf(db.Callback().Create()).Elem()
-	if err := sameLayout(pt, reflect.TypeOf(procMirror{}), "processor"); err != nil {
+	if err := sameLayout(pt, reflect.TypeOf(procMirror{}), "processor", true); err != nil {
 		return err
+	}
+	extraProcFields = nil
+	for i := reflect.TypeOf(procMirror{}).NumField(); i < pt.NumField(); i++ {
+		extraProcFields = append(extraProcFields, pt.Field(i))
 	}
 	f, ok := pt.FieldByName("callbacks")
 	if !ok || f.Type.Kind() != reflect.Slice || f.Type.Elem().Kind() != reflect.Ptr {
 		return fmt.Errorf("gorm processor.callbacks is not []*callback")
 	}
-	return sameLayout(f.Type.Elem().Elem(), reflect.TypeOf(cbMirror{}), "callback")
+	return sameLayout(f.Type.Elem().Elem(), reflect.TypeOf(cbMirror{}), "callback", false)
 }
 
 var pipelineNames = []string{"create", "query", "update", "delete", "row", "raw"}
@@ -245,6 +255,7 @@ func takeProc(p *procMirror) snap {
 	for i, c := range p.callbacks {
 		s.cbs[i] = *c
 	}
+	s.extra = takeExtra(p)
 	return s
 }
 
@@ -257,6 +268,7 @@ func restoreProc(p *procMirror, s snap) {
 	}
 	p.callbacks = ptrs
 	p.fns = append(make([]func(*gorm.DB), 0, len(s.fns)), s.fns...)
+	restoreExtra(p, s.extra)
 }
 
 // openOthers obtains further DBs the ways users do and records their pipelines.
@@ -332,8 +344,58 @@ func (r *rt) reverseIsolation(o Op, gen int8) string {
 }
 
 type snap struct {
-	cbs []cbMirror
-	fns []func(*gorm.DB)
+	cbs   []cbMirror
+	fns   []func(*gorm.DB)
+	extra []reflect.Value // deep copies of extraProcFields
+}
+
+func deepCopy(v reflect.Value) reflect.Value {
+	switch v.Kind() {
+	case reflect.Map:
+		if v.IsNil() {
+			return reflect.Zero(v.Type())
+		}
+		m := reflect.MakeMapWithSize(v.Type(), v.Len())
+		for it := v.MapRange(); it.Next(); {
+			m.SetMapIndex(deepCopy(it.Key()), deepCopy(it.Value()))
+		}
+		return m
+	case reflect.Slice:
+		if v.IsNil() {
+			return reflect.Zero(v.Type())
+		}
+		c := reflect.MakeSlice(v.Type(), v.Len(), v.Len())
+		for i := 0; i < v.Len(); i++ {
+			c.Index(i).Set(deepCopy(v.Index(i)))
+		}
+		return c
+	}
+	c := reflect.New(v.Type()).Elem()
+	c.Set(v)
+	return c
+}
+
+func extraField(p *procMirror, f reflect.StructField) reflect.Value {
+	return reflect.NewAt(f.Type, unsafe.Add(unsafe.Pointer(p), f.Offset)).Elem()
+}
+
+func takeExtra(p *procMirror) []reflect.Value {
+	if len(extraProcFields) == 0 {
+		return nil
+	}
+	out := make([]reflect.Value, len(extraProcFields))
+	for i, f := range extraProcFields {
+		out[i] = deepCopy(extraField(p, f))
+	}
+	return out
+}
+
+func restoreExtra(p *procMirror, vals []reflect.Value) {
+	for i, f := range extraProcFields {
+		if i < len(vals) {
+			extraField(p, f).Set(deepCopy(vals[i]))
+		}
+	}
 }
 
 func (r *rt) take() snap {
@@ -344,6 +406,7 @@ func (r *rt) take() snap {
 	if r.a.proc.fns == nil {
 		s.fns = nil
 	}
+	s.extra = takeExtra(r.a.proc)
 	return s
 }
 
@@ -360,6 +423,7 @@ func (r *rt) restore(s snap) {
 	} else {
 		r.a.proc.fns = append(make([]func(*gorm.DB), 0, len(s.fns)), s.fns...)
 	}
+	restoreExtra(r.a.proc, s.extra)
 }
 
 // newRT opens a fresh gorm and brings the pipeline into the initial state.
